@@ -89,3 +89,69 @@ Theorem C16_failed_flush_then_full_recovery : forall cv ck ch, 0 < cv -> 0 < ck 
   crun cv ck ch c (ops1 ++ fop :: ops2) = Ok c' /\
   durable_at (c_store c') (fst (spec_run m (updates_of (ops1 ++ fop :: ops2)))) (c_buf c') d2.
 Proof. exact C16_failed_flush_then_recovery. Qed.
+
+(** THE CONCRETE BUFFER UNDER A REFUSED WRITE (Cache_fault.v).  [RabufF] is the executable model of
+    rabuf's BufFile ([Cache.Rabuf]) extended with the cause of failure of the test environment: a
+    file-size limit L - a write request at or beyond L fails after the part below L has been
+    written, a growing set_len beyond L fails.  It follows the real control flow (a chunk stays
+    dirty when its write fails; flush stops at the first failing chunk; [clear] drops nothing when
+    its flush fails) and is run against the REAL rabuf under a real RLIMIT_FSIZE by this check,
+    line by line, including the state a refused call leaves and the file the OS sees.  With no
+    limit it is the model of C07 ([cstep_f_none]). *)
+From Aby Require Import Cache Cache_proofs Flatx Cache_x Cache_fault.
+
+(** a flush under ANY limit - failed or not - leaves the logical contents and the position intact,
+    and the buffer in a state from which everything below still holds *)
+Theorem C16_concrete_failed_flush_keeps_the_view : forall lim c f,
+  cache_invf c -> R c f ->
+  exists c' ok, flush_f lim c = fpack c' ok /\ R c' f /\ cache_invf c' /\
+    Rabuf.k_cs c' = Rabuf.k_cs c /\ Rabuf.k_auto c' = Rabuf.k_auto c /\
+    blen (Rabuf.k_disk c) <= blen (Rabuf.k_disk c') /\
+    (ok = true -> all_clean c') /\ (ok = false -> lim <> None).
+Proof. exact flush_f_view_intact. Qed.
+
+(** a flush that reports success has made the file durable, limit or not *)
+Theorem C16_concrete_ok_means_durable : forall lim c f c',
+  cache_invf c -> R c f -> flush_f lim c = FOk c' -> Rabuf.k_disk c' = Rabuf.f_bytes f.
+Proof. exact flush_f_ok_durable. Qed.
+
+(** once the limit is gone, a flush succeeds and the disk is exactly the logical file *)
+Theorem C16_concrete_recovery : forall c f,
+  cache_invf c -> R c f ->
+  exists c', flush_f None c = FOk c' /\ Rabuf.k_disk c' = Rabuf.f_bytes f /\ R c' f /\ cache_invf c' /\ all_clean c'.
+Proof. exact flush_f_recovery. Qed.
+
+(** every call: under a limit it either returns what the flat file returns, or it is refused and
+    leaves the state [failed_state] describes (for flush, sync, clear, the partial read and write,
+    prepare and non-growing seeks: nothing changed; for write_all / read_exact: the pieces before
+    the refused one stay applied) *)
+Theorem C16_concrete_every_call : forall lim fuel c f o f' r,
+  cache_invx c -> R c f -> xstep (Rabuf.k_cs c) f o = Some (f', r) -> (op_fuel f o <= fuel)%nat ->
+  fout (cstep_f lim fuel c o)
+    (fun '(c', r') => r' = r /\ R c' f' /\ cache_invf c' /\ Rabuf.k_cs c' = Rabuf.k_cs c /\ Rabuf.k_auto c' = Rabuf.k_auto c)
+    (failed_state lim c f o).
+Proof. exact cstep_f_view. Qed.
+
+(** ANY sequence of calls under limits that come and go, successful or refused ([safe]: every call
+    inside the domain of the flat reference, and no growing set_len beyond a limit - see the
+    finding below): the buffer still represents a flat file, the one [ftraj] describes, and a
+    flush without limit puts exactly that file on the disk *)
+Theorem C16_concrete_any_run_recovers : forall l fuel c f,
+  cache_invx c -> R c f -> safe (Rabuf.k_cs c) fuel f l ->
+  exists c' outs f',
+    run_f fuel c l = FOk (c', outs) /\ ftraj (Rabuf.k_cs c) f l outs f' /\
+    R c' f' /\ cache_invf c' /\ Rabuf.k_cs c' = Rabuf.k_cs c /\
+    exists c'', flush_f None c' = FOk c'' /\ Rabuf.k_disk c'' = Rabuf.f_bytes f' /\ R c'' f' /\ cache_invf c''.
+Proof. exact run_f_recovery. Qed.
+
+(** FINDING about the dependency, kernel-computed and reproduced on the real rabuf (outside C16:
+    abyssiniandb grows a file by set_len only when it creates a table file, and never seeks beyond
+    the end): a GROWING set_len refused by the limit - also the one inside a seek beyond the end -
+    reports the error but has already moved [end]; the buffer then believes in bytes that are in
+    no chunk and not on the disk, and a later flush without limit "succeeds" with a shorter file *)
+Theorem C16_finding_refused_growing_set_len : 
+  xstep 8 (Rabuf.Flat 0 fdisk) (Rabuf.OSeek (Rabuf.SeekStart 20)) = Some (Rabuf.Flat 20 (fdisk ++ zeros 10), Rabuf.RPos 20) /\
+  ~ grow_ok lim12 (Rabuf.Flat 0 fdisk) (Rabuf.OSeek (Rabuf.SeekStart 20)) /\
+  exists c' c'', cstep_f lim12 30 (Rabuf.mk_cache 8 2 None fdisk) (Rabuf.OSeek (Rabuf.SeekStart 20)) = FErr c' /\
+    R c' (Rabuf.Flat 0 (fdisk ++ zeros 10)) /\ flush_f None c' = FOk c'' /\ Rabuf.k_disk c'' <> fdisk ++ zeros 10.
+Proof. exact ex_grow_ok_needed. Qed.
